@@ -107,3 +107,131 @@ TABLE["C18"] = {
     "technique": "Coq proof by list induction (Permutation / NoDup / StronglySorted, lexicographic comparison combinators) + finite "
                  "case analysis by vm_compute + vm_compute correspondence on every configuration and random name sets",
 }
+TABLE["C20"] = {
+    "text": "Coq theorems (axiom-free) about an association-list model with Python-dict behaviour of recursive_dict_merge / "
+            "load_conf / _resolve_filenames / the BRAIN loader's index arithmetic: merge_lookup (a key of the later mapping wins — "
+            "entirely when either side is a leaf, by recursive merge when both are mappings — and untouched keys survive), the dict "
+            "invariant is preserved, merging is idempotent (syntactically), String.leb is a total order and sorting any permutation "
+            "of the directory listing gives the same list, hence load_conf (base, fragments in alphabetical order of the file names, "
+            "extra keys, resolved file names) is the same for EVERY permutation of the listing and equals the left fold of the merge "
+            "over the sorted names; a non-mapping fragment fails the load wherever it is listed; the extra keys and "
+            "_resolve_filenames keep every other key/value; tx/rx = stored-1 position by position; the loaded array has one row per "
+            "timetrace for both reader layouts (scipy: (S,N) Fortran order; h5py: (N,S) C order); Time.from_vect on t0+k*step returns "
+            "(t0, step, n) over exact rationals. merge_assoc is REFUTED (a leaf between two mappings; witness replayed on the code), "
+            "shown irrelevant (load_conf is a fixed left fold) and proved to hold as maps whenever the third operand puts no mapping "
+            "over a leaf of the second; merging respects equality up to key order (dict order of the files is irrelevant). "
+            "Tie (exact): Config.merge on random nested dicts incl. leaf-vs-mapping conflicts; real .arim directories with 0-6 "
+            "fragments with adversarial names (prefixes, case, digits, punctuation), non-mapping/empty files, result_dir and "
+            "filepath_keys variants, loaded under every permutation of the listing (k<=4; random otherwise) by substituting "
+            "pathlib.Path.glob: results must be identical for all listings, equal to an independently written spec and to the model "
+            "evaluated by vm_compute (compared as maps by cfg_eqb, proved sound); grid/material/attenuation/wall/examination-object/"
+            "probe builders compared field by field with dyadic configured values (and the arguments reaching Grid, the "
+            "dispatch of examination_object_from_conf/probe_from_conf, against the model); exp_data MAT files written with "
+            "scipy.io.savemat (and the h5py reader emulated in memory) for FMC/HMC/random capture orders, 5 index dtypes, square and "
+            "non-square data: samples, time axis, element positions/dimensions, frequency, velocity unchanged, tx/rx = stored-1, "
+            "rows = timetraces; Time.from_vect against an exact-rational model; the chain load_conf -> frame_from_conf on real "
+            "directories (resolved datafile, instrument_delay, probe/examination object from conf or file).",
+    "note": "Trusted: Coq kernel; harness (Path.glob and the HDF5 reader substituted from outside, leaf values interned to integers). "
+            "Oracles (Section variables): YAML parsing, the set of listed names, pathlib joining/resolution, MAT reading. 'Alphabetical' "
+            "= byte-lexicographic order of the file names including '.yaml' (ASCII names only in the tie). The model is a tree: "
+            "aliasing of sub-mappings through YAML anchors is outside it (stated assumption). The constructors Grid/Material/Probe "
+            "themselves are only exercised by the tie; the builder 'theorems' are the trivial key-passing views (defaults ymin/ymax). "
+            "Time.from_vect: theorem for exactly linear vectors only; the 1 % tolerance branch is covered by the correspondence. "
+            "One-element files and one-sample files are rejected by the loader (InvalidExpData) and excluded from the theorem "
+            "(premises 2 <= N, 2 <= S for the h5py layout).",
+    "technique": "Coq proof by nested induction on configurations (custom induction principle), fold invariants, Permutation / "
+                 "StronglySorted uniqueness of sorted lists + vm_compute correspondence on real directories with permuted listings",
+}
+TABLE["C04"] = {
+    "text": "Coq theorems about a model of snell_angles / _fluid_solid_n / fluid_solid / solid_l_fluid / solid_t_fluid / "
+            "transmission_at_interface / reflection_at_interface written once over a numeric record (reals; complex numbers as pairs "
+            "of reals with derived sin, cos, numpy's arcsin branch). Over the reals: Snell's law for the real arcsin up to the critical "
+            "angle and, for the complex dtype, on every branch of numpy's arcsin (below and beyond critical: pi/2 + i acosh s); the "
+            "Snell round trip; energy conservation R^2 + sum T_m^2 (z_inc cos a_m)/(z_m cos a_inc) = 1 for the three functions below "
+            "every critical angle, both on (sin, cos) constrained by Snell and cos^2+sin^2=1 (field_simplify_eq + nsatz) and for the "
+            "functions as called on an incidence angle in [0, pi/2) with Snell angles computed on the fly; for complex angles: total "
+            "reflection |R|=1 beyond both critical angles, |R|^2+|T_T|^2 K=1 between them, and |R_TT|^2+|T|^2 K=1 for T incidence "
+            "beyond the L critical angle (on (sin, i*b) inputs and for the functions as called). In ANY field (proved in a Section "
+            "over an abstract field structure, instantiated for R and for pairs of reals, so for complex angles): the three Stokes "
+            "relations T_lf = T_fl z_f cos a_l/(z_l cos a_f), T_tf = -T_ft z_f cos a_t/(z_t cos a_f), R_tl = -R_lt z_l cos a_t/(z_t cos a_l) "
+            "(the relations of tests/test_model.py incl. its magic_coefficient=-1) and the normal-incidence impedance formulas. The "
+            "angle-called functions are proved equal to the (sin, cos) formulas (double-angle identities, real and complex). The "
+            "helpers' dispatch tables (selected coefficient, z_inc/z_out or c_inc/c_out for displacement, raising combinations) are "
+            "proved for every numeric instance. Tie: the extracted model (OCaml floats + libm) is compared with arim at 1e-11 on random "
+            "and fixed materials (c_T < c_L/sqrt 2, fluid velocity from 250 m/s to 1.3 c_L) and angle grids (real and complex dtype, "
+            "0-89.9 deg, every critical angle +- {0,1,2 ulp,1e-9,1e-6,1e-3}): numpy arcsin on arim's sine, snell_angles, the three "
+            "functions with the angles given / on (sin,cos) / with Snell on the fly, both helpers for all 32 (kind, modes, unit) "
+            "combinations x force_complex incl. the raising ones; and the identities themselves (Snell, energy with Re(cos) flux "
+            "weights in every regime, Stokes, normal incidence, helper = selected coefficient x documented ratio) are evaluated on "
+            "arim's outputs (residual <= 1e-10) and decide failing_input_found.",
+    "note": "Trusted: Coq kernel + real-number axioms of the standard library; ExtrOcamlBasic extraction, ocaml/common/numf.ml and the "
+            "driver; numpy's complex sin/cos/arcsin/division are MODELLED by textbook formulas over real libm functions (agreement "
+            "checked to 1e-11, not proved); theorems are exact-arithmetic, binary64 rounding is outside them. End-to-end routes that "
+            "recompute Snell angles exclude cases with |s-1| < 1e-9 (class D; those are compared with the angles given) and allow a "
+            "4-ulp error on the Snell sine times its conditioning; tolerances scale with the condition number of N. Partial: "
+            "post-critical energy balance is proved for fluid->solid (between / beyond) and T incidence beyond the L critical angle; "
+            "the regimes that need a fluid faster than a solid wave are covered by the residual predicate and correspondence only. "
+            "The conjugate arcsin branch would satisfy every identity: it is caught by the correspondence only (no failing input).",
+    "technique": "Coq proof over R (field_simplify_eq/nsatz/field), over an abstract field (Add Field in a Section) and over complex "
+                 "pairs + extracted-OCaml differential correspondence + residual predicates on the implementation",
+}
+TABLE["C01"] = {
+    "text": "Coq theorems about a faithful executable model of _find_minimum_times (triple loop, strict <, accumulator (inf,-1) as "
+            "option) and of FermatSolver (_solve recursion over split_queue, expand_rays, make_indices, Rays.reverse, FermatPath.reverse, "
+            "cached_result / cached_distance as association lists incl. the `rkey` slip), over an ABSTRACT cost type (leb a total "
+            "preorder, ltb = not >=, add monotone in its first argument — laws that IEEE non-NaN doubles satisfy, so nothing is 'up to "
+            "rounding'); all discrete theorems are axiom-free: minplus_spec/minplus_first (result <= every candidate, attained at the "
+            "returned index, which is the least minimiser), minplus_empty, minplus_tile (kernel on a row/column slice = block of the "
+            "global result, for C13); solve_defined/solve_shapes; solve_optimal (times[i][j] <= the left-nested cost of EVERY valid "
+            "index tuple, any number of legs, induction on legs, Bellman step by monotonicity only); solve_realised (the reported "
+            "indices start at i, end at j, are in range and cost exactly times[i][j]); fastest_unique (realised+optimal pin the time "
+            "whatever the tie-breaking); solver_grouping (one solver on ANY list of paths = each path alone, same error behaviour; "
+            "invariant: every cache entry equals the stand-alone solution of its key); cost_reverse/solve_reverse/"
+            "solve_reverse_transposed/rays_reverse_valid (associative-commutative add + symmetric distance: reversed path gives "
+            "transposed times, Rays.reverse realises them), rays_reverse_involutive, path_reverse_involutive; discrete_between "
+            "(L <= times[i][j] <= continuous time of any sample tuple, for every lower bound L of the continuous problem); "
+            "fermat_stationary_snell (one flat interface: a local minimiser of the continuous travel time satisfies "
+            "sin(th1)/c1 = sin(th2)/c2; Reals axioms); cost_structure_R / concrete_leg_model (the hypotheses hold for R and for the "
+            "executable Num instance). Tie: real FermatSolver(...).solve() and ray_tracing_for_paths (C/F order, float64/float32) on "
+            "generated clouds (1-4 legs, set sizes 1-40, 2D/3D, coincident points, ties, groups of 1-6 paths with shared prefixes, "
+            "duplicates, clones, reversed duplicates, empty end sets, empty interior set -> ZeroDivisionError) against the model run by "
+            "vm_compute on binary64 primitive floats: times bit-exact on dyadic-exact clouds (exactness of every leg is measured), "
+            "1e-12 on random clouds (1e-5 float32); indices are NOT compared with the model's argmin but must satisfy solve_realised "
+            "(Coq function cost) on the implementation's own times. Spec predicates evaluated in numpy on every answer: brute force "
+            "over all tuples (prod sizes <= 1e5) == times, realised, index ranges/endpoints, reversed == transposed, "
+            "Rays.reverse valid and involutive, grouped == alone bitwise, order/set independence, float32 run.",
+    "note": "Trusted: Coq kernel (+ Reals axioms for the two real-number theorems only); harness generators and numpy spec predicates. "
+            "Instance gap: float addition is monotone but not associative, so reversal is exact only in exact arithmetic (checked within "
+            "1e-12 on random clouds, bit-exact on dyadic clouds). Not covered by theorems: memory layout, dtype casts, the thread pool "
+            "(C13), gone_through_extreme_points, NaN/inf inputs (FermatPath asserts finite velocities). Snell is mechanised for one flat "
+            "interface in 2-D only; for several interfaces the continuous problem enters discrete_between through an arbitrary lower "
+            "bound L. The theorems are about the model with strict `<`; any other tie-breaking is covered by fastest_unique together "
+            "with the harness relation (a `<` -> `<=` rewrite of the kernel does not alarm).",
+    "technique": "Coq proof by induction on the path (snoc structure) over an abstract ordered cost type + table calculus; state-machine "
+                 "refinement for the caches; Coquelicot/Reals for Snell; vm_compute (PrimFloat) correspondence + numpy brute-force spec",
+}
+TABLE["C14"] = {
+    "text": "Coq theorems (axiom-free, for any number of interfaces and EVERY history of Query m idx is_final | clear_intermediate_results "
+            "| clear_all_results | precompute block | model client (beamspread, reverse beamspread, transmission-reflection, reverse) | "
+            "in-place write into a previously answered object): the state machine Model/Cache.v of RayGeometry (cache keyed by (method, "
+            "resolved index), finals, heap of arrays with writeable flags and object identity, the 17 decorated methods with their call "
+            "graph, raw-vs-resolved index uses and None/ValueError/IndexError branches, Cache and NoCache) satisfies cache_inv (every cached "
+            "value is the read-only object holding the fresh answer of its key, finals are cached), cache_transparent (all observations of "
+            "the history equal the stateless closed-form answers, which are the answers of a fresh use_cache=False object; cached = uncached), "
+            "neg_index_interchangeable (rewriting indices to their non-negative spelling gives the identical trace and final state), "
+            "answers_readonly, mutate_fails (a write into any answered object raises and changes nothing), clear_keeps_finals. "
+            "Tie: exhaustive histories (47-symbol alphabet, length <= 3; 22 symbols, length <= 3 quick / 4 thorough) and random histories "
+            "(length <= 25, 2..5 interfaces, all None/True/False normal-side flags, indices -n-2..n+1) on real RayGeometry objects: every "
+            "answer is compared by hash with a FRESH use_cache=False object, every returned array is attacked with in-place writes, every "
+            "cached value is compared with the fresh answer of its key, and outcome kinds, set(_cache), _final_keys and the identity "
+            "partition of returned objects are compared with the Coq state machine evaluated by vm_compute (also for use_cache=False objects).",
+    "note": "Trusted: Coq kernel; harness (synthetic Interface/Path/Rays construction, sha1 of array bytes, id()-based identity classes). "
+            "Array contents are symbolic terms in the model: numeric equality is checked only on the implementation (hash vs fresh uncached "
+            "object). Modelled, not verified: numpy's writeable flag makes in-place writes fail; a caller deliberately resetting "
+            "flags.writeable is outside the property. The model describes /repo after fix 37f2364 (inc_* test the resolved index); no other "
+            "raw/resolved asymmetry was found (proved: neg_index_interchangeable holds unconditionally), so DESIGN's cache_transparent_refuted "
+            "is obsolete and not stated. Histories are sampled/exhausted only up to the stated lengths on the implementation side.",
+    "technique": "Coq proof: stratified Hoare-style lemmas per method over a state-and-error monad, heap frame invariant, induction over "
+                 "operation lists; vm_compute correspondence on recorded histories (prefix-shared blocks) + differential test against "
+                 "fresh uncached objects",
+}
